@@ -53,6 +53,9 @@ def states(tier, seed):
                 if key != (nx + int(al > 0)) % 2:
                     continue
             st.append(dict(part="aero", sset=sset, pf=pf, nx=nx, ny=ny, alpha=al, visc=visc, wave=wave, M=M, comp=comp, ground=ground, sref=sref, fam=fam))
+            if sset != "wing_offplane" and (nx == 3 or tier == "thorough") and pf == "twdi":
+                # the same aircraft described by its RIGHT half (root node first)
+                st.append(dict(part="aero", side="right", sset=sset, pf=pf, nx=nx, ny=ny, alpha=al, visc=visc, wave=wave, M=M, comp=comp, ground=ground, sref=sref, fam=fam))
     # aerostructural
     opts = list(itertools.product([False, True], repeat=3))  # relief, fuel, point masses
     if tier == "quick":
@@ -63,6 +66,10 @@ def states(tier, seed):
             inadm += 1  # distributed fuel needs the wingbox fuel volumes
             continue
         st.append(dict(part="as", model=model, pf=pf, nx=nx, ny=ny, relief=relief, fuel=fuel, pmass=pmass, visc=visc, wave=False, fam=fam))
+        if pf == "swept":
+            # right halves only on planforms whose reference axis has no z-slope: with one, the Geometry group's Rotate component
+            # moves right-half meshes (known finding F7r of C07), which would mask everything else here
+            st.append(dict(part="as", side="right", model=model, pf=pf, nx=3, ny=ny, relief=relief, fuel=fuel, pmass=pmass, visc=visc, wave=False, fam=fam))
     if tier == "thorough":
         for model in ["tube", "wingbox"]:
             st.append(dict(part="as", model=model, pf="swept", nx=2, ny=3, relief=True, fuel=False, pmass=False, visc=True, wave=True, fam=fam))
@@ -71,10 +78,11 @@ def states(tier, seed):
 
 def surf_meshes(s):
     fam = s["fam"]
-    wing = gen.make_mesh(s["pf"], s["nx"], s["ny"], "left", fam)
+    side = s.get("side", "left")
+    wing = gen.make_mesh(s["pf"], s["nx"], s["ny"], side, fam)
     out = [("wing", wing)]
     if s["sset"] == "wing_tail":
-        out.append(("tail", gen.make_mesh("rect", 2, 2, "left", fam, span=3.0, chord=0.8, offset=[5.0, 0.0, 0.7])))
+        out.append(("tail", gen.make_mesh("rect", 2, 2, side, fam, span=3.0, chord=0.8, offset=[5.0, 0.0, 0.7])))
     if s["sset"] == "wing_offplane":
         # a symmetric surface that does not touch y=0: spans y in [-3, -1.5]
         fin = gen.make_mesh("swept", 2, 3, "left", fam, span=3.0, chord=0.7, offset=[4.5, -1.5, 0.6])
@@ -103,6 +111,8 @@ def _aero_model(named, syms, s, extra_images=None, h=None):
 
 def part_aero(s):
     named = surf_meshes(s)
+    side = s.get("side", "left")
+    half_of = (lambda a, n: a[:, :n]) if side == "left" else (lambda a, n: a[:, -n:])  # modelled half of a full-span panel array
     h = 6.0
     ph = _aero_model(named, [True] * len(named), s, h=h)
     # full-span equivalent built by the harness
@@ -112,7 +122,7 @@ def part_aero(s):
             fullnamed.append(("fin", m))
             fullnamed.append(("finR", gen.mirror_mesh(m)))
         else:
-            fullnamed.append((n, full_of(m, "left")))
+            fullnamed.append((n, full_of(m, side)))
     if s["ground"]:
         fullnamed = fullnamed + [(n + "_img", reflect(m, s["alpha"], h)) for n, m in fullnamed]
     s2 = dict(s)
@@ -139,7 +149,7 @@ def part_aero(s):
     for n, m in named:
         nyp = m.shape[1] - 1
         Fh = ph["ap.aero_states.%s_sec_forces" % n]
-        Ff = pf_["ap.aero_states.%s_sec_forces" % n][:, :nyp]
+        Ff = half_of(pf_["ap.aero_states.%s_sec_forces" % n], nyp)
         cmp("sec_forces", Fh, Ff, Fsc, dict(surf=n))
         multi = 2.0 if n == "fin" else 1.0  # the full model carries the fin as two surfaces
         for q in ("CL", "CDi", "CDv"):
@@ -167,13 +177,13 @@ def part_aero(s):
     if not s["ground"] and s["sset"] == "wing_tail":
         # symmetry is a per-surface setting: the same aircraft with only ONE of the two surfaces modelled as a half
         for pat in ([True, False], [False, True]):
-            mixed = [(n, m if sy else full_of(m, "left")) for (n, m), sy in zip(named, pat)]
+            mixed = [(n, m if sy else full_of(m, side)) for (n, m), sy in zip(named, pat)]
             pm_ = _aero_model(mixed, pat, s)
             tag = dict(mixed="".join("h" if sy else "f" for sy in pat))
             for (n, m), sy in zip(named, pat):
                 nyp = m.shape[1] - 1
-                Fm = pm_["ap.aero_states.%s_sec_forces" % n][:, :nyp]
-                cmp("sec_forces", Fm, pf_["ap.aero_states.%s_sec_forces" % n][:, :nyp], Fsc, dict(surf=n, **tag))
+                Fm = pm_["ap.aero_states.%s_sec_forces" % n] if sy else half_of(pm_["ap.aero_states.%s_sec_forces" % n], nyp)
+                cmp("sec_forces", Fm, half_of(pf_["ap.aero_states.%s_sec_forces" % n], nyp), Fsc, dict(surf=n, **tag))
                 for q in ("CL", "CDi", "CDv"):
                     cmp(q, pm_["ap.%s_perf.%s" % (n, q)], pf_["ap.%s_perf.%s" % (n, q)], extra=dict(surf=n, **tag))
                 cmp("S_ref", pm_["ap.%s.S_ref" % n], pf_["ap.%s.S_ref" % n], extra=dict(surf=n, **tag))
@@ -184,7 +194,7 @@ def part_aero(s):
     return dict(viol=viol, nontrivial=bool(Fsc > 1e-9), digest=digest_arrays(*[ph["ap.aero_states.%s_sec_forces" % n] for n, _ in named]), transitions=2, validated=validated)
 
 
-def _as_model(mesh, sym, s, mirror_pm=False):
+def _as_model(mesh, sym, s, mirror_pm=False, ynode=None):
     kw = dict(struct_weight_relief=s["relief"], distributed_fuel_weight=s["fuel"], with_viscous=s["visc"], with_wave=s["wave"], exact_failure_constraint=True)
     pm = None
     if s["pmass"]:
@@ -192,7 +202,7 @@ def _as_model(mesh, sym, s, mirror_pm=False):
     surf = builders.struct_surface("wing", mesh, sym, s["model"], **kw)
     if s["pmass"]:
         # at the spanwise station of the second structural node of the left half
-        ynode = mesh[0, 1, 1]
+        ynode = mesh[0, 1, 1] if ynode is None else ynode
         loc = [[1.1, ynode, -0.35]]
         pm = dict(point_masses=[600.0], engine_thrusts=[5.0e3], point_mass_locations=loc)
         if mirror_pm:
@@ -205,10 +215,12 @@ def _as_model(mesh, sym, s, mirror_pm=False):
 
 
 def part_as(s):
-    half = gen.make_mesh(s["pf"], s["nx"], s["ny"], "left", s["fam"], span=10.0, chord=1.6)
-    full = full_of(half, "left")
-    ph = _as_model(half, True, s)
-    pf_ = _as_model(full, False, s, mirror_pm=True)
+    side = s.get("side", "left")
+    half = gen.make_mesh(s["pf"], s["nx"], s["ny"], side, s["fam"], span=10.0, chord=1.6)
+    full = full_of(half, side)
+    L = side == "left"
+    ph = _as_model(half, True, s, ynode=half[0, 1, 1])
+    pf_ = _as_model(full, False, s, mirror_pm=True, ynode=half[0, 1, 1])
     ny = half.shape[1]
     viol, validated = [], 0
     wh = dict(model=s["model"], relief=s["relief"], fuel=s["fuel"], pmass=s["pmass"])
@@ -229,12 +241,14 @@ def part_as(s):
 
     Fh = ph[A + "coupled.aero_states.wing_sec_forces"]
     Fsc = max(np.abs(Fh).max(), 1e-300)
-    cmp("sec_forces", Fh, pf_[A + "coupled.aero_states.wing_sec_forces"][:, : ny - 1], Fsc)
-    cmp("disp", ph[A + "coupled.wing.disp"], pf_[A + "coupled.wing.disp"][:ny])
+    Ff = pf_[A + "coupled.aero_states.wing_sec_forces"]
+    cmp("sec_forces", Fh, Ff[:, : ny - 1] if L else Ff[:, -(ny - 1) :], Fsc)
+    cmp("disp", ph[A + "coupled.wing.disp"], pf_[A + "coupled.wing.disp"][:ny] if L else pf_[A + "coupled.wing.disp"][-ny:])
     # nodal loads of the modelled half, root node excluded: in the full model the centre node also collects the
     # adjacent panel of the other half
-    cmp("loads", ph[A + "coupled.wing_loads.loads"][: ny - 1], pf_[A + "coupled.wing_loads.loads"][: ny - 1], max(np.abs(ph[A + "coupled.wing_loads.loads"]).max(), 1e-300))
-    cmp("vonmises", ph[A + "wing_perf.vonmises"], pf_[A + "wing_perf.vonmises"][: ny - 1])
+    lh, lf = ph[A + "coupled.wing_loads.loads"], pf_[A + "coupled.wing_loads.loads"]
+    cmp("loads", lh[: ny - 1] if L else lh[1:], lf[: ny - 1] if L else lf[-(ny - 1) :], max(np.abs(lh).max(), 1e-300))
+    cmp("vonmises", ph[A + "wing_perf.vonmises"], pf_[A + "wing_perf.vonmises"][: ny - 1] if L else pf_[A + "wing_perf.vonmises"][-(ny - 1) :])
     cmp("structural_mass", ph["wing.structural_mass"], pf_["wing.structural_mass"], tol=1e-9)
     cmp("cg_location", ph["wing.cg_location"], pf_["wing.cg_location"], max(np.abs(pf_["wing.cg_location"]).max(), 1e-3), tol=1e-9)
     cmp("S_ref", ph[A + "coupled.wing.S_ref"], pf_[A + "coupled.wing.S_ref"])
